@@ -1097,7 +1097,7 @@ def _menu():
         reg(nm, Q if not buffered else T, (lambda nm=nm, buffered=buffered, cap=cap: CdcStreamHarness(nm, _cdc(buffered), cap)))
         nm = f"ClockDomainCrossing(a->b,buffered={buffered},with_common_rst)/reset_pulses"
         mkw = (lambda buffered=buffered, cap=cap: CommonRstWrapper(_layout(cap), None, buffered))
-        reg(nm, T, (lambda nm=nm, mkw=mkw, cap=cap: CdcStreamResetHarness(nm, mkw, cap, hold=(1, 2), cap=4_000_000)))
+        reg(nm, Q if not buffered else T, (lambda nm=nm, mkw=mkw, cap=cap: CdcStreamResetHarness(nm, mkw, cap, hold=(1, 2), cap=4_000_000)))
         if not buffered:
             SENSITIVITY[nm] = [("reset pulse released as soon as each clock has risen once (reset-less synchroniser flops not yet flushed)",
                                 (lambda nm=nm, mkw=mkw, cap=cap: CdcStreamResetHarness(nm + "/short", mkw, cap, hold=(1, 0))), "dup.invented")]
